@@ -165,6 +165,12 @@ def _decoys(names: typing.Sequence[str]) -> typing.Dict[str, str]:
             files[cname + (".txt" if i % 2 else SUFFIX + ".bak")] = "decoy"
     if "object" not in names:
         files["object" + SUFFIX] = "decoy"
+    # templates whose name only STARTS with a class name (`<Class>.<word>.j2`): for classes without a template of their
+    # own (must not be taken for one) and next to a real `<Class>.j2` (must not shadow it, whatever the sort order)
+    for i, cname in enumerate(list(universe()[1]) + list(BEYOND)):
+        word = (".inc", ".old", ".a", ".macros")[i % 4]
+        if cname not in names or i % 2 == 0:
+            files[cname + word + SUFFIX] = "decoy"
     return files
 
 
